@@ -80,7 +80,11 @@ func newBackend() *recBackend {
 func (b *recBackend) handle(w http.ResponseWriter, r *http.Request) {
 	var body []byte
 	discarded := 0
-	if r.Header.Get("X-Verif-Discard") == "1" {
+	if r.Header.Get("X-Verif-Early") == "1" {
+		// answer before the request body has ended (the client keeps its side of the exchange open); without full duplex
+		// net/http's HTTP/1 server would first try to read the rest of the request body
+		http.NewResponseController(w).EnableFullDuplex()
+	} else if r.Header.Get("X-Verif-Discard") == "1" {
 		n, _ := io.Copy(io.Discard, r.Body) // uploads far larger than memory should hold
 		discarded = int(n)
 	} else {
